@@ -294,6 +294,16 @@ func (fr *Frame) frameObligations(fc *FuncContract, pre *Env, entry, final *Stat
 	if final.epoch != entry.epoch && !fc.AssignsAny {
 		// some callee without a frame was called: nothing can be proved about the frame
 		enc.oblige("frame", fc.File, "assigns clause (a callee without contract was called: frame undecidable)", nil, pc, tFalse)
+		anyFx := false
+		for _, fx := range fc.Effects {
+			if fx == "any" {
+				anyFx = true
+			}
+		}
+		if !anyFx {
+			// ... and so are its effects on the outside world
+			enc.oblige("effects:unknown", fc.File, "effects clause (a callee without contract was called: its effects are unknown)", nil, pc, tFalse)
+		}
 		return
 	}
 	allowed := map[string][]*Term{} // heap var -> refs that may change
@@ -351,7 +361,7 @@ func (fr *Frame) frameObligations(fc *FuncContract, pre *Env, entry, final *Stat
 			if fxOK[name] {
 				continue
 			}
-			enc.oblige("effects", fc.File, "no effect of class "+strings.TrimPrefix(name, "$fx.")+" (effects clause)", nil, pc, Eq(fin, init))
+			enc.oblige("effects:"+strings.TrimPrefix(name, "$fx."), fc.File, "no effect of class "+strings.TrimPrefix(name, "$fx.")+" (effects clause)", nil, pc, Eq(fin, init))
 			continue
 		}
 		if !strings.HasPrefix(so, "(Array Int ") {
